@@ -401,6 +401,18 @@ func c05Cases(r *mon.Run) []C05Case {
 		{Op: "pull", Peer: &C05Peer{}}, {Op: "reopen"},
 		{Op: "edit", Bug: 0, N: 1}, {Op: "readall"},
 	}})
+	// the clock is shared by all bugs: after seeing a far-ahead entity, an ordinary edit of an older bug must still read back
+	for _, be := range []string{"gogit", "mock"} {
+		out = append(out, C05Case{Name: "targeted-witness-far-ahead-then-edit-old-bug-" + be, Backend: be, Steps: []C05Step{
+			{Op: "create", N: 1}, {Op: "witness", Clock: "bugs-edit", Delta: 2_000_000}, {Op: "create", N: 1}, {Op: "read", Bug: 1},
+			{Op: "edit", Bug: 0, N: 1}, {Op: "read", Bug: 0}, {Op: "readall"},
+		}})
+	}
+	out = append(out, C05Case{Name: "targeted-merge-far-ahead-bug-then-edit-old-bug", Backend: "gogit", Steps: []C05Step{
+		{Op: "create", N: 1}, {Op: "push"},
+		{Op: "pull", Peer: &C05Peer{New: 1, Jump: 3_000_000}},
+		{Op: "edit", Bug: 0, N: 1}, {Op: "read", Bug: 0},
+	}})
 	out = append(out, C05Case{Name: "targeted-mock-merge-write", Backend: "mock", Steps: []C05Step{
 		{Op: "create", N: 2}, {Op: "push"},
 		{Op: "pull", Peer: &C05Peer{New: 2, Edits: []int{0}, Jump: 60}},
@@ -425,6 +437,9 @@ type c05Env struct {
 	res     *C05Result
 	peerPub map[string]bool // mock: identities already copied
 	onPeer  map[entity.Id]bool
+	// bigJump: the edit clock of the repository under test was legitimately moved more than the read-time hop
+	// limit (1 000 000) ahead, by a witness or by merging an entity created on a replica that is that far ahead
+	bigJump bool
 }
 
 func (e *c05Env) tick() int64 { e.now++; return e.now }
@@ -514,6 +529,10 @@ func (e *c05Env) localBug(idx int) (entity.Id, bool) {
 func (e *c05Env) readBack(id entity.Id, after string) *bug.Bug {
 	b, err := world.ReadBug(e.repo(), id)
 	if err != nil {
+		if e.bigJump && strings.Contains(err.Error(), "jumping too far") {
+			e.find("written-commit-unreadable:edit-clock-more-than-1000000-above-parent", fmt.Sprintf("bug %s cannot be read after %s by the repository that wrote it: its clock had moved more than 1 000 000 ahead (witness / merge of an entity with a far-ahead clock), the new commit sits that far above its parent and the reader refuses such a hop: %v", id.Human(), after, err))
+			return nil
+		}
 		e.find("unreadable-after-"+after+":"+errClass(err), fmt.Sprintf("bug %s cannot be read after %s: %v", id.Human(), after, err))
 		return nil
 	}
@@ -855,6 +874,9 @@ func runC05Case(c C05Case) C05Result {
 			if v < 0 {
 				v = 0
 			}
+			if s.Delta >= 1_000_000 && s.Clock == "bugs-edit" {
+				e.bigJump = true
+			}
 			if err := e.repo().Witness(s.Clock, lamport.Time(v)); err != nil {
 				e.find("witness-fails:"+errClass(err), err.Error())
 			}
@@ -909,7 +931,11 @@ func runC05Case(c C05Case) C05Result {
 				got = append(got, se.Entity.Id())
 			}
 			if rerr != nil {
-				e.find("readall-fails:"+errClass(rerr), rerr.Error())
+				if e.bigJump && strings.Contains(rerr.Error(), "jumping too far") {
+					e.find("written-commit-unreadable:edit-clock-more-than-1000000-above-parent", "ReadAll: "+rerr.Error())
+				} else {
+					e.find("readall-fails:"+errClass(rerr), rerr.Error())
+				}
 				break
 			}
 			for _, id := range got {
@@ -919,6 +945,9 @@ func runC05Case(c C05Case) C05Result {
 			e.push()
 		case "fetch", "pull":
 			if s.Peer != nil {
+				if s.Peer.Jump >= 1_000_000 {
+					e.bigJump = true
+				}
 				if err := e.peerActs(s.Peer); err != nil {
 					e.skip("peer: " + err.Error())
 				}
